@@ -460,9 +460,14 @@ def m_append(eng, st, recv, args, kwargs, node):
     return VNone()
 
 
+COPYFN = z3.Function("opaque.copy", Fn, Fn)
+
+
 def m_copy(eng, st, recv, args, kwargs, node):
     if isinstance(recv, VRef):
         return st.alloc(st.heap[recv.addr].copy())
+    if isinstance(recv, VFn):
+        return VFn(COPYFN(recv.t))          # a copy of an opaque object: a function of the original (same content, new identity)
     raise Unsupported(".copy() of %r" % (recv,))
 
 
@@ -1613,6 +1618,7 @@ def install(eng):
     M["np.all"] = m_np_all
     M["np.any"] = m_np_any
     M["np.sum"] = m_np_sum
+    M["np.cumsum"] = lambda eng, st, args, kwargs, node: m_cumsum(eng, st, args[0], args[1:], kwargs, node)
     M["np.mean"] = m_np_mean
     M["np.zeros"] = m_np_zeros2
     M["np.nanmin"] = m_np_nanmin
